@@ -138,7 +138,7 @@ Violation(s) == Mk(s, [NoRe EXCEPT !.exc = "ProtocolError"])
 
 \* ---------------------------------------------------------------- invocations (C10)
 \* beh: what the endpoint does.  Terminal replies: exactly one YIELD (no progress flag) or ERROR per invocation.
-SyncBehaviours == {"value", "callresult", "none", "unserializable", "oversize", "apperror", "mapped", "unmapped"}
+SyncBehaviours == {"value", "callresult", "none", "unserializable", "oversize", "apperror", "bigerror", "mapped", "unmapped"}
 ReplyOf(beh) == IF beh \in {"value", "callresult", "none"} THEN "yield" ELSE "error"
 
 Invocation(s, m, beh) ==
